@@ -19,7 +19,7 @@ for name, (prop, needs) in NEEDS.items():
         primary = [prop] if prop in c else c[:1]
     meta = {
         "breaks_property": prop,
-        "origin": "revert of a fix: commit in /repo" if name.startswith("F") else "written by an independent sub-agent that saw only the property text and a scratch worktree",
+        "origin": "revert of a fix: commit in /repo" if name.startswith("F") else ("written by the harness author from the list in DESIGN.md 3.8 (no demonstration test; the check output is the demonstration)" if name.startswith("M") else "written by an independent sub-agent that saw only the property text and a scratch worktree"),
         "needs_to_manifest": needs,
         "confirmed": "with the change applied the 73 existing tests pass; the demonstration (demo.rs, a cargo integration test) fails with the change and passes without it" if not name.startswith("F") else "the pinned tree b95655e (which contains this behaviour) passes the 73 tests; the witness is in known_findings.json",
         "ran": "cargo test --workspace --offline (73 passed) with the patch; cargo test --offline --test demo (fails with, passes without); tools/matrix.py <patch> C01..C20 (quick tier)",
@@ -27,5 +27,10 @@ for name, (prop, needs) in NEEDS.items():
         "also_caught_by": [x for x in (c or []) if x not in primary],
         "matrix_known": c is not None,
     }
+    if prop == "none":
+        meta["caught_by_quick"] = []
+        meta["must_pass_quick"] = ["C04", "C06", "C20"]
+    if name.startswith("M"):
+        meta["confirmed"] = "with the change applied the 73 existing tests pass (cargo test --workspace --offline)"
     json.dump(meta, open(f"{d}/meta.json", "w"), indent=1)
 print(len(caught), "matrix rows")
